@@ -79,8 +79,13 @@ def run_case(case):
     F._calc_overlapping_labels = lambda prediction_arr, reference_arr, ref_labels: [(r + 1, p + 1) for p in range(Pn) for r in range(R) if SBool(ov[r][p])]
 
     def decode(m):
-        return {"metric": metric, "R": R, "P": Pn, "flags": [[bool(jsonable(ov[r][p], m)) for p in range(Pn)] for r in range(R)],
-                "scores": {"%d:%s" % (r, ",".join(map(str, sorted(q)))): jsonable(v, m) for (r, q), v in S.items()}, "thr": jsonable(thr, m)}
+        d = {"metric": metric, "R": R, "P": Pn, "flags": [[bool(jsonable(ov[r][p], m)) for p in range(Pn)] for r in range(R)],
+             "scores": {"%d:%s" % (r, ",".join(map(str, sorted(q)))): jsonable(v, m) for (r, q), v in S.items()}, "thr": jsonable(thr, m)}
+        if h.last_neg is not None:
+            # counterexample: hand the violating path itself (its decisions and the negated obligation) to the replay side, which re-solves it
+            # under the exact overlap-score formulas over bounded voxel counts (the free-score model over-approximates real scores)
+            d["path"] = [c.sexpr() for c in list(ENG.path) + [h.last_neg]]
+        return d
     h = H(PROP, case["name"], decode, replay_kind="abstract", max_witnesses=30)
 
     def beats(s, t):
@@ -232,6 +237,61 @@ def _realise(case):
     return None
 
 
+def _realise_path(case):
+    """refinement of an abstract counterexample: voxel counts (bounded) whose exact IoU / Dice set scores satisfy the violating path's own
+    decisions and the negated obligation; None if there are none within the bound"""
+    R, Pn, metric = case["R"], case["P"], case["metric"]
+    if not case.get("path") or metric == "ASSD":
+        return None
+    subs = _subsets(Pn)
+    decls = {"thr": z3.Real("thr")}
+    for r in range(R):
+        for p in range(Pn):
+            decls["ov_%d_%d" % (r, p)] = z3.Bool("ov_%d_%d" % (r, p))
+        for q in subs:
+            nm = "s_%d_%s" % (r, "".join(map(str, sorted(q))))
+            decls[nm] = z3.Real(nm)
+    text = "".join("(assert %s)\n" % c for c in case["path"])
+    try:
+        cons = list(z3.parse_smt2_string(text, decls=decls))
+    except z3.Z3Exception:
+        return None
+    n = [[z3.Int("n_%d_%d" % (r, p)) for p in range(Pn)] for r in range(R)]
+    a = [z3.Int("a_%d" % r) for r in range(R)]
+    b = [z3.Int("b_%d" % p) for p in range(Pn)]
+    kk = z3.Int("k")
+    DEN = 64
+    for bound in (3, 6):
+        s = z3.Solver()
+        s.set("timeout", 60000)
+        for r in range(R):
+            s.add(a[r] >= 0, a[r] <= bound)
+            for p in range(Pn):
+                s.add(n[r][p] >= 0, n[r][p] <= bound, (n[r][p] > 0) == decls["ov_%d_%d" % (r, p)])
+        for p in range(Pn):
+            s.add(b[p] >= 0, b[p] <= bound)
+        s.add(kk >= 0, kk <= DEN, decls["thr"] * DEN == z3.ToReal(kk))
+        Rs = [a[r] + z3.Sum([n[r][p] for p in range(Pn)]) for r in range(R)]
+        Ps = [b[p] + z3.Sum([n[r][p] for r in range(R)]) for p in range(Pn)]
+        for x in Rs + Ps:
+            s.add(x > 0)
+        sub = []
+        for r in range(R):
+            for q in subs:
+                inter = z3.Sum([n[r][p] for p in q])
+                size = z3.Sum([Ps[p] for p in q])
+                num, den = (inter, Rs[r] + size - inter) if metric == "IOU" else (2 * inter, Rs[r] + size)
+                sub.append((decls["s_%d_%s" % (r, "".join(map(str, sorted(q))))], z3.ToReal(num) / z3.ToReal(den)))
+        for c in cons:
+            s.add(z3.substitute(c, *sub))
+        if str(s.check()) == "sat":
+            m = s.model()
+            g = lambda x: m.eval(x, True).as_long()
+            pred, ref = sets_1d_from_counts([[g(n[r][p]) for p in range(Pn)] for r in range(R)], [g(x) for x in a], [g(x) for x in b])
+            return {"pred": pred, "ref": ref, "thr": g(kk) / DEN}
+    return None
+
+
 def _run_real(arrs, case, mode, expect):
     serial = mode != "violation"
     try:
@@ -278,6 +338,8 @@ def _search(case, want):
 
 def real_abstract(case, mode, expect):
     arrs = _realise(case) if case["metric"] != "ASSD" else None
+    if arrs is None and mode != "witness":
+        arrs = _realise_path(case)
     if arrs is None:
         if mode == "witness":
             return {"match": True, "skipped": "abstract path representative not realisable as voxel counts"}
